@@ -460,7 +460,10 @@ def import_repo():
     warnings.showwarning = lambda *a, **k: None   # _integrate calls warnings.simplefilter("once"), which re-enables output
     if str(REPO) not in sys.path:
         sys.path.insert(0, str(REPO))
+    import logging
+    logging.getLogger('py_balcalc').setLevel(logging.CRITICAL)
     import py_ballisticcalc
+    logging.getLogger('py_balcalc').setLevel(logging.CRITICAL)
     assert Path(py_ballisticcalc.__file__).resolve().parent.parent == REPO.resolve(), \
         f'py_ballisticcalc imported from {py_ballisticcalc.__file__}, expected {REPO}'
     return py_ballisticcalc
